@@ -76,8 +76,14 @@ type MdnsManager struct {
 
 	providerSelection MdnsProviderSelection
 
+	// reports are sent from separate goroutines: each snapshot of the entries gets a version
+	// and a snapshot is not reported anymore once a newer one was reported
+	snapshotVersion uint64
+	reportedVersion uint64
+
 	mux,
-	muxAnnounced sync.Mutex
+	muxAnnounced,
+	muxReport sync.Mutex
 }
 
 func shortenString(s string, maxLen int) string {
@@ -373,6 +379,13 @@ func (m *MdnsManager) mdnsEntries() map[string]*api.MdnsEntry {
 }
 
 func (m *MdnsManager) copyMdnsEntries() map[string]*api.MdnsEntry {
+	entries, _ := m.snapshotMdnsEntries()
+
+	return entries
+}
+
+// returns a copy of the current entries and the version of this snapshot
+func (m *MdnsManager) snapshotMdnsEntries() (map[string]*api.MdnsEntry, uint64) {
 	m.mux.Lock()
 	defer m.mux.Unlock()
 
@@ -383,7 +396,26 @@ func (m *MdnsManager) copyMdnsEntries() map[string]*api.MdnsEntry {
 		mdnsEntries[k] = newEntry
 	}
 
-	return mdnsEntries
+	m.snapshotVersion++
+
+	return mdnsEntries, m.snapshotVersion
+}
+
+// report a snapshot of the entries asynchronously, the reports are delivered one at a time
+// and a snapshot that is older than the last one reported is dropped,
+// so the last report always contains the most recent entries
+func (m *MdnsManager) reportMdnsEntries(entries map[string]*api.MdnsEntry, version uint64, newEntries bool) {
+	go func() {
+		m.muxReport.Lock()
+		defer m.muxReport.Unlock()
+
+		if version < m.reportedVersion {
+			return
+		}
+		m.reportedVersion = version
+
+		m.report.ReportMdnsEntries(entries, newEntries)
+	}()
 }
 
 func (m *MdnsManager) mdnsEntry(ski string) (*api.MdnsEntry, bool) {
@@ -546,8 +578,8 @@ func (m *MdnsManager) processMdnsEntry(elements map[string]string, name, host st
 		return
 	}
 
-	entries := m.copyMdnsEntries()
-	go m.report.ReportMdnsEntries(entries, true)
+	entries, version := m.snapshotMdnsEntries()
+	m.reportMdnsEntries(entries, version, true)
 }
 
 func (m *MdnsManager) RequestMdnsEntries() {
@@ -555,6 +587,6 @@ func (m *MdnsManager) RequestMdnsEntries() {
 		return
 	}
 
-	entries := m.copyMdnsEntries()
-	go m.report.ReportMdnsEntries(entries, false)
+	entries, version := m.snapshotMdnsEntries()
+	m.reportMdnsEntries(entries, version, false)
 }
